@@ -92,7 +92,7 @@ Definition ex_e (i : N) (d : N) : entry :=
 Example C16_ex_truncate_reappend :
   let st := run ex_cpf (sys_init 2)
               [HStore 0 [ex_e 1 97; ex_e 2 98]; HStore 0 [ex_e 3 192];
-               HStore 1 [ex_e 1 97]; HStore 1 [ex_e 2 98]; HDelete 1 2 2; HStore 1 [ex_e 2 98]] in
+               HStore 1 [ex_e 1 97]; HStore 1 [ex_e 2 98]; HDelete 1 2 2 false; HStore 1 [ex_e 2 98]] in
   match get (n_store (node_at st 0)) 3 with
   | Some cp =>
       match node_store ex_cpf (node_at st 1) [cp] with
@@ -132,7 +132,7 @@ Proof. vm_compute. repeat split; try reflexivity; try discriminate; try (intros 
 Example C16_ex_range_mismatch :
   let st := run ex_cpf (sys_init 2)
               [HStore 0 [ex_e 1 97; ex_e 2 98]; HStore 0 [ex_e 3 192];
-               HStore 1 [ex_e 1 97; ex_e 2 98]; HDelete 1 1 1] in
+               HStore 1 [ex_e 1 97; ex_e 2 98]; HDelete 1 1 1 false] in
   match get (n_store (node_at st 0)) 3 with
   | Some cp =>
       match node_store ex_cpf (node_at st 1) [cp] with
@@ -150,14 +150,14 @@ Proof. vm_compute. split; reflexivity. Qed.
 Example C16_ex_head_truncation_no_reset :
   let st := run ex_cpf (sys_init 2)
               [HStore 0 [ex_e 1 97; ex_e 2 98]; HStore 0 [ex_e 3 192]; HSend 0;
-               HStore 0 [ex_e 4 99; ex_e 5 100]; HDelete 0 1 2] in
+               HStore 0 [ex_e 4 99; ex_e 5 100]; HDelete 0 1 2 false] in
   match node_store ex_cpf (node_at st 0) [ex_e 6 192] with
   | (SOk, ld, [rl]) =>
       r_start rl = 3 /\ r_err (verify (n_store ld) rl) = ENone /\
       match get (n_store (node_at st 0)) 3, get (n_store ld) 6 with
       | Some cp3, Some cp6 =>
           let st1 := run ex_cpf (sys_init 2)
-                       [HStore 1 [ex_e 1 97; ex_e 2 98; cp3]; HSend 1; HStore 1 [ex_e 4 99]; HDelete 1 1 2;
+                       [HStore 1 [ex_e 1 97; ex_e 2 98; cp3]; HSend 1; HStore 1 [ex_e 4 99]; HDelete 1 1 2 false;
                         HStore 1 [ex_e 5 100]] in
           match node_store ex_cpf (node_at st1 1) [cp6] with
           | (SOk, fd, [rf]) => r_written rf <> 0 /\ r_written rf = r_expected rf /\
@@ -175,7 +175,7 @@ Proof. vm_compute. repeat split; try reflexivity; try discriminate; try (intros 
 Example C16_ex_head_truncation_into_range :
   let st := run ex_cpf (sys_init 2)
               [HStore 0 [ex_e 1 97; ex_e 2 98]; HStore 0 [ex_e 3 192];
-               HStore 1 [ex_e 1 97; ex_e 2 98]; HDelete 1 1 1] in
+               HStore 1 [ex_e 1 97; ex_e 2 98]; HDelete 1 1 1 false] in
   match get (n_store (node_at st 0)) 3 with
   | Some cp =>
       match node_store ex_cpf (node_at st 1) [cp] with
